@@ -545,11 +545,14 @@ theorem sciValue_digit {c : Char} (t : List Char) (hd : isDigit c = true) :
       else none := by
   have h1 : c ≠ '-' := by intro e; subst e; revert hd; decide
   have h2 : c ≠ '+' := by intro e; subst e; revert hd; decide
+  have hs : stripSign (c :: t) = (false, c :: t) := by
+    unfold stripSign
+    split
+    · next heq => cases heq; exact absurd rfl h1
+    · next heq => cases heq; exact absurd rfl h2
+    · rfl
   unfold sciValue
-  split
-  · next heq => cases heq; exact absurd rfl h1
-  · next heq => cases heq; exact absurd rfl h2
-  · next r _ _ heq => cases heq; rfl
+  rw [hs]
 
 /-- The exponent part printed by `format!("{}", exp)` for an `i64`. -/
 def expText (e : Int) : List Char :=
@@ -569,12 +572,17 @@ theorem expText_value (e : Int) : expPartValue (expText e) = e := by
         ← List.map_cons, ← hN, digitsOf_map_digitChar _ h1, h3]
       omega
 
-theorem expText_shape (e : Int) :
-    (match some (expText e) with
-     | none => true
-     | some ('-' :: ds) => !ds.isEmpty && allDigits ds
-     | some ('+' :: ds) => !ds.isEmpty && allDigits ds
-     | some ds => !ds.isEmpty && allDigits ds) = true := by
+theorem expShapeOk_digit {c : Char} (t : List Char) (hd : isDigit c = true) :
+    expShapeOk (c :: t) = (!(c :: t).isEmpty && allDigits (c :: t)) := by
+  have h1 : c ≠ '-' := by intro e; subst e; revert hd; decide
+  have h2 : c ≠ '+' := by intro e; subst e; revert hd; decide
+  unfold expShapeOk
+  split
+  · next heq => cases heq; exact absurd rfl h1
+  · next heq => cases heq; exact absurd rfl h2
+  · rfl
+
+theorem expText_shape (e : Int) : expShapeOk (expText e) = true := by
   obtain ⟨h1, h2, h3⟩ := natDigits_spec e.natAbs
   have hall := allDigits_map_digitChar _ h1
   have hne : ((natDigits e.natAbs).map digitChar).isEmpty = false := by
@@ -583,22 +591,16 @@ theorem expText_shape (e : Int) :
     | cons n ns => rfl
   unfold expText
   by_cases hneg : e < 0
-  · simp only [hneg, if_true, List.cons_append, List.nil_append]
+  · simp only [hneg, if_true, List.cons_append, List.nil_append, expShapeOk]
     rw [hne, hall]; rfl
   · simp only [hneg, if_false, List.nil_append]
     cases hN : natDigits e.natAbs with
     | nil => exact absurd hN h2
     | cons n ns =>
       have hd : isDigit (digitChar n) = true := isDigit_digitChar (h1 n (by simp [hN]))
-      have hm : digitChar n ≠ '-' := by intro e; rw [e] at hd; revert hd; decide
-      have hp : digitChar n ≠ '+' := by intro e; rw [e] at hd; revert hd; decide
       rw [hN] at hall
       simp only [List.map_cons] at hall ⊢
-      split
-      · next heq => cases heq
-      · next heq => cases heq; exact absurd rfl hm
-      · next heq => cases heq; exact absurd rfl hp
-      · next ds' _ _ _ heq => cases heq; rw [hall]; rfl
+      rw [expShapeOk_digit _ hd, hall]; rfl
 
 theorem reassemble_eq (ds : List Nat) (e : Int) :
     reassemble ds e = ds.map digitChar ++ 'e' :: expText e := by
@@ -690,7 +692,7 @@ theorem lexNumber_digits {text : List Char} {ds : List Nat} {e : Int} {rest : Li
         split at h
         · cases h
         · cases h
-          refine go_digits cs _ _ acc rest' hgo ?_ (by simp)
+          refine go_digits cs _ _ acc _ hgo ?_ (by simp)
           intro d hmem
           simp only [List.mem_singleton] at hmem; subst hmem
           unfold isDigit at hd; unfold digitVal
